@@ -2,6 +2,7 @@ package main
 
 import (
 	"fmt"
+	"os"
 	"strings"
 
 	"github.com/jsightapi/jsight-schema-go-library/fs"
@@ -304,4 +305,40 @@ func projectCorrespondence(ctx *Ctx, docs [][]byte, bans [][]directive.Enumerati
 		}
 	}
 	ctx.Cov.Component("composed model: Model/Project.lean (bytes -> lexemes -> directives -> forest -> expansion -> catalog skeleton) vs the real pipeline on "+label, n, bad, "")
+}
+
+// projectCorrSuite: documents that exercise the EARLY stages of the composed model — random token sequences over the
+// scanner alphabet (separated by blanks / line ends so that directives form), structured token documents with macros and
+// parentheses, byte-level mutants of the fixture files — next to the documents of the catalog-construction suites.
+func projectCorrSuite(ctx *Ctx, r *Rng, n int) {
+	var docs [][]byte
+	seps := []string{" ", "\n", "\n  ", " ", "\n", ""}
+	for i := 0; i < n; i++ {
+		k := 2 + r.Intn(9)
+		var b []byte
+		if r.Chance(2, 3) {
+			b = append(b, "JSIGHT 0.3\n"...)
+		}
+		for j := 0; j < k; j++ {
+			b = append(b, scanTokens[r.Intn(len(scanTokens))]...)
+			b = append(b, seps[r.Intn(len(seps))]...)
+		}
+		docs = append(docs, b)
+	}
+	for i := 0; i < n/2; i++ {
+		c, _ := renderCToks(plausibleCToks(r, 3+r.Intn(10), true))
+		docs = append(docs, c)
+		c2, _ := renderCToks(macroDoc(r))
+		docs = append(docs, c2)
+	}
+	var fixtures [][]byte
+	for _, f := range fixtureFiles() {
+		if b, err := os.ReadFile(f); err == nil && len(b) < 3000 {
+			fixtures = append(fixtures, b)
+		}
+	}
+	for i := 0; i < n/2 && len(fixtures) > 0; i++ {
+		docs = append(docs, mutate(r, fixtures[r.Intn(len(fixtures))]))
+	}
+	projectCorrespondence(ctx, docs, nil, "random token sequences, structured token documents with macros and parentheses, byte-level mutants of the fixture files")
 }
